@@ -139,7 +139,13 @@ func (f *frame) execInstr(in ssa.Instruction) {
 	case *ssa.Select:
 		f.execSelect(x)
 	case *ssa.Go:
-		v.note("go statement at %s treated as a no-op on modelled state (channels only)", v.pos(x.Pos()))
+		// a goroutine that writes nothing but its own locals (it may wait on and close channels, and log)
+		// has no effect on modelled state; anything else is outside the subset
+		callee := x.Call.StaticCallee()
+		if callee == nil || !v.eng.pureByInspection(callee, 1) {
+			unsupp("go statement at %s starts a goroutine that may write shared state", v.pos(x.Pos()))
+		}
+		v.note("go statement at %s treated as a no-op on modelled state (the goroutine only waits on / closes channels and logs)", v.pos(x.Pos()))
 	case *ssa.Defer:
 		if v.eng.effectFree(x.Call.StaticCallee(), &x.Call) {
 			return
